@@ -47,7 +47,7 @@ def configure(tier, avoid):
     quick = tier == 'quick'
     p = gen.Params(max_stmts=12 if quick else 24, max_depth=2, expr_depth=2,
                    max_procs=2, dead_code=0.5, mixed_case_types=True, avoid=avoid)
-    return {'examples': 128 if quick else 2400, 'params': p,
+    return {'examples': 128 if quick else 1200, 'params': p,
             'bounds': {'configs': [X.cfg_name(tuple(c)) for c in CONFIGS],
                        'hash_seeds': ['0', '1', '12345', 'random']},
             'tick_budget': 40000}
